@@ -339,29 +339,30 @@ fn handle_item(
             let cond = cond.evaluate(scope.clone())?.is_true();
             let items = if cond { do_if } else { do_else };
             check_body(items, BodyContext::Control)?;
+            let scope = ScopeRef::sub_flow(scope);
             handle_body(items, dest, scope, file_context)?;
         }
         Item::Each(names, values, body) => {
             check_body(body, BodyContext::Control)?;
-            let pushed = scope.store_local_values(names);
-            for value in values.evaluate(scope.clone())?.iter_items() {
+            let values = values.evaluate(scope.clone())?;
+            let scope = ScopeRef::sub_flow(scope);
+            for value in values.iter_items() {
                 scope.define_multi(names, value)?;
                 handle_body(body, dest, scope.clone(), file_context)?;
             }
-            scope.restore_local_values(pushed);
         }
         Item::For(name, range, body) => {
             let range = range.evaluate(scope.clone())?;
             check_body(body, BodyContext::Control)?;
+            let scope = ScopeRef::sub_flow(scope);
             for value in range {
-                let scope = ScopeRef::sub(scope.clone());
                 scope.define(name.clone(), value)?;
-                handle_body(body, dest, scope, file_context)?;
+                handle_body(body, dest, scope.clone(), file_context)?;
             }
         }
         Item::While(cond, body) => {
             check_body(body, BodyContext::Control)?;
-            let scope = ScopeRef::sub(scope);
+            let scope = ScopeRef::sub_flow(scope);
             while cond.evaluate(scope.clone())?.is_true() {
                 handle_body(body, dest, scope.clone(), file_context)?;
             }
